@@ -137,7 +137,7 @@ def coreFn (fn : String) (args : List String) : Option String :=
     let cls : String := if oct ≠ 0 ∨ sym = [] then "-"
       else match Spec.parseExpr sym with
         | none => "sym_malformed"
-        | some cs => if cs.all (fun c => c.appliesTo ek) then "-" else "sym_kind_specific_clauses"
+        | some _ => "-"   -- `sym_kind_specific_clauses` repaired: see Props.C11_symbolic_full
     pure (line3 (showOutcome showNat (Chmod.mode ek cur oct sym)) sp cls)
   | "revoking", [a, b] => do
     let x ← octOfArg a; let y ← octOfArg b
